@@ -29,6 +29,7 @@ var rawFuncs = map[string]struct {
 	"arr2str": {"arr2str", SStr},
 	"rv_valid": {"rv_valid", SBool}, "rv_val": {"rv_val", SVal}, "rv_iface": {"rv_iface", SBool}, "mk_rv": {"mk_rv", "RV"},
 	"tmd": {"tmd", SStr}, "fsread": {"fsread", SStr},
+	"rv_deepnan": {"rv_deepnan", SBool},
 	"rvkind": {"rvkind", SInt}, "tconvertible": {"tconvertible", SBool},
 }
 
@@ -118,6 +119,14 @@ func (c *SpecCtx) call(e *ast.CallExpr) TT {
 		case "implies":
 			a, b := c.tr(e.Args[0]), c.tr(e.Args[1])
 			return TT{T: implies(a.T, b.T), Ty: boolT}
+		case "same":
+			// identity (SMT =), also for floats where == means IEEE equality
+			a, b := c.tr(e.Args[0]), c.tr(e.Args[1])
+			a, b = c.coerceNil(a, b), c.coerceNil(b, a)
+			if a.T.Sort != b.T.Sort {
+				c.failf("same() between sorts %s and %s", a.T.Sort, b.T.Sort)
+			}
+			return TT{T: eq(a.T, b.T), Ty: boolT}
 		case "iff":
 			a, b := c.tr(e.Args[0]), c.tr(e.Args[1])
 			return TT{T: eq(a.T, b.T), Ty: boolT}
